@@ -12,7 +12,7 @@ import math
 import operator
 from calendar import isleap, leapdays
 from collections.abc import Mapping
-from decimal import Decimal
+from decimal import Context, Decimal
 from typing import Any, Generic, Optional, SupportsFloat, SupportsIndex, TypeVar, Union
 from urllib.parse import urlsplit
 
@@ -249,6 +249,14 @@ def round_number(value: Union[float, int, Decimal]) -> Union[float, int, Decimal
         return value
 
     number = Decimal(value)
+    if number.adjusted() >= 27:
+        # The integer part has more digits than the default decimal precision
+        context = Context(prec=number.adjusted() + 2)
+        if number > 0:
+            return type(value)(number.quantize(Decimal('1'), 'ROUND_HALF_UP', context))
+        else:
+            return type(value)(number.quantize(Decimal('1'), 'ROUND_HALF_DOWN', context))
+
     if number > 0:
         return type(value)(number.quantize(Decimal('1'), rounding='ROUND_HALF_UP'))
     else:
